@@ -145,6 +145,17 @@ CHECKS = {
         "Trusted: ref/nzd.py + ref/tzrules.py (share no code with pyoda_time), ref/calendars Gregorian arithmetic.",
         "DESIGN.md §2 C06",
     ),
+    "C07": (
+        "exploration",
+        "Hypothesis property-based testing with grammar-generated patterns: round-trip and metamorphic (format-parse-format) relations, projection oracle",
+        "Grammar-generated patterns for the 7 pattern types x all available cultures (every culture visited per type) x "
+        "values in all calendars: formatting is deterministic; parse(format(v)) succeeds for representable values and "
+        "equals the projection of v onto the pattern's fields (absent fields from the template, fractions truncated); "
+        "format(parse(format(v))) == format(v) for every value; the built-in round-trip / ISO patterns recover every "
+        "value. Applicability rules stated in the property are enforced by construction and counted in the evidence.",
+        "Trusted: the harness-side pattern tokenizer and projection (checks/c07.py); ICU culture data only as a source of strings. Open findings are listed in known_findings.json.",
+        "DESIGN.md §2 C07",
+    ),
     "C08": (
         "exploration",
         "Hypothesis property-based testing with grammar-generated and mutated pattern texts and input texts; result-validity oracle",
